@@ -939,6 +939,11 @@ func (d *Decoder) Decode() (Assertion, error) {
 		contentBuf.Truncate(headLen)
 	}
 
+	if len(sig) > 0 && sig[0] == '\n' {
+		// Decode would split such an encoding at a different place
+		return nil, fmt.Errorf("unexpected newline before assertion signature")
+	}
+
 	// normalize sig ending newlines
 	if bytes.HasSuffix(sig, nlnl) {
 		sig = sig[:len(sig)-1]
